@@ -8,6 +8,7 @@ import Swiftness.Model.Table
 import Driver.AstLoad
 import Swiftness.Prover.MerkleProver
 import Swiftness.Prover.FriProver
+import Swiftness.Model.LayoutStatic
 
 namespace Swiftness.Driver
 open Swiftness Swiftness.Proto
@@ -37,8 +38,13 @@ structure LayoutProgs where
 
 structure Ctx where
   layouts : List LayoutProgs := []
+  /-- full data of the static layouts (for the pipeline ops) -/
+  data : List LayoutData := []
 
 def Ctx.find? (c : Ctx) (n : String) : Option LayoutProgs := c.layouts.find? (·.name == n)
+def Ctx.data? (c : Ctx) (n : String) : Option LayoutData := c.data.find? (·.name == n)
+
+
 
 /-- `name:val;name:val` → values in `fields` order (every field must be present exactly once) -/
 def gvArray? (fields : List String) (s : String) : Option (Array Felt) := do
@@ -60,6 +66,23 @@ def friWitness? (s : String) : Option (List Fri.LayerWitness) :=
     match l.splitOn "|" with
     | [a, b] => do pure ⟨← felts? a, ← felts? b⟩
     | _ => none
+
+/-- proof = CFG(13) PI(10) UNSENT(7) WITNESS(7) tokens (see hx `ops_proof.rs`) -/
+def parseProof? (toks : List String) : Option Stark.Proof :=
+  if toks.length ≠ 37 then none else do
+  let cfg ← parseCfg? (toks.take 13)
+  let pi ← parsePI? ((toks.drop 13).take 10)
+  match toks.drop 23 with
+  | [to, ti, comp, oods, fi, fl, nonce, v1, v2, a1, a2, v3, a3, fw] =>
+    let ws ← friWitness? fw
+    pure { config := cfg, publicInput := pi,
+           unsent := { tracesOriginal := ← felt? to, tracesInteraction := ← felt? ti, composition := ← felt? comp,
+                       oodsValues := ← felts? oods, friInnerLayers := ← felts? fi, friLastLayerCoefficients := ← felts? fl,
+                       powNonce := ← nat? nonce },
+           witness := { tracesOriginalValues := ← felts? v1, tracesInteractionValues := ← felts? v2,
+                        tracesOriginalAuths := ← felts? a1, tracesInteractionAuths := ← felts? a2,
+                        compositionValues := ← felts? v3, compositionAuths := ← felts? a3, friLayers := ws } }
+  | _ => none
 
 def fmtFriWitness (ws : List Fri.LayerWitness) : String :=
   if ws.isEmpty then "-" else ";".intercalate (ws.map fun w => s!"{hxs w.leaves}|{hxs w.auths}")
@@ -178,6 +201,35 @@ def answer? (ctx : Ctx) (H : Hashes) (_stone6 : Bool) (toks : List String) : Opt
     if qy.length ≠ qx.length then none else
     let qs := (qy.zip qx).map fun (y, x) => (⟨0, y, x⟩ : Fri.LayerQuery)
     pure (out unit (Fri.verifyLastLayer qs (← felts? coefs)))
+  | "validate_pi" :: layout :: rest =>
+    if rest.length ≠ 12 then none else do
+    let D ← ctx.data? layout
+    let pi ← parsePI? (rest.take 10)
+    match rest.drop 10 with
+    | [t, c] =>
+      match StarkDomains.new (← felt? t) (← felt? c) with
+      | .ok d => pure (out unit (D.validatePublicInput pi d))
+      | .err _ => pure "err"
+      | .panic s => pure ("panic " ++ s)
+    | _ => none
+  | "verify_pi" :: layout :: rest =>
+    if rest.length ≠ 10 then none else do
+    let D ← ctx.data? layout
+    let pi ← parsePI? rest
+    pure (out (fun ((a, b) : Felt × Felt) => s!"{hx a} {hx b}") (D.verifyPublicInput H pi))
+  | "eval_comp" :: layout :: ie :: rest =>
+    if rest.length ≠ 15 then none else do
+    let D ← ctx.data? layout
+    let pi ← parsePI? (rest.take 10)
+    let iev ← gvArray? D.interactionFields ie
+    match rest.drop 10 with
+    | [mask, coeffs, point, tds, tgen] =>
+      pure (out hx (D.evalComposition iev.toList pi (← felts? mask) (← felts? coeffs) (← felt? point) (← felt? tds) (← felt? tgen)))
+    | _ => none
+  | "verify" :: layout :: sec :: rest => do
+    let D ← ctx.data? layout
+    let p ← parseProof? rest
+    pure (out (fun ((a, b) : Felt × Felt) => s!"{hx a} {hx b}") (Stark.verify (D.ops H) H _stone6 p (← felt? sec)))
   | "comp_inner" :: layout :: mask :: coeffs :: point :: tgen :: gv :: rest => do
     let L ← ctx.find? layout
     let dp ← match rest with | [] => some #[] | [d] => (nats? d).map (·.toArray) | _ => none
